@@ -6,6 +6,7 @@
 #include <cstring>
 #include <cstdint>
 #include <dlfcn.h>
+#include <unistd.h>
 #include <vector>
 extern "C" {
 uint8_t X_vp_nondet_u8(void); uint16_t X_vp_nondet_u16(void); uint32_t X_vp_nondet_u32(void); uint32_t X_vp_nondet_int(void);
@@ -16,13 +17,14 @@ uint32_t X_vp_in_live_block(uint8_t*, uint64_t, uint32_t); void X_vp_check_no_le
 uint8_t* X_vp_buf(uint64_t); void X_vp_buf_free(uint8_t*);
 void vp_rt_init(void);
 
+static char g_tmp[64]; static void vp_cleanup() { if (g_tmp[0]) remove(g_tmp); }
 static std::vector<uint64_t> g_in; static size_t g_pos; static std::vector<uint32_t> g_par;
 uint32_t X_vp_param(uint32_t);
 uint32_t vp_native_param(uint32_t k) { return k < g_par.size() ? g_par[k] : 0; }
 int vp_param(int k) { return (int)X_vp_param((uint32_t)k); }
 uint64_t vp_next_input(void) { return g_pos < g_in.size() ? g_in[g_pos++] : 0; }
-void vp_fail(const char* msg) { printf("VP_CHECK_FAIL %s\n", msg); fflush(stdout); _Exit(3); }
-void vp_assume_fail(void) { printf("VP_ASSUME_FAILED\n"); fflush(stdout); _Exit(4); }
+void vp_fail(const char* msg) { printf("VP_CHECK_FAIL %s\n", msg); fflush(stdout); vp_cleanup(); _Exit(3); }
+void vp_assume_fail(void) { printf("VP_ASSUME_FAILED\n"); fflush(stdout); vp_cleanup(); _Exit(4); }
 
 unsigned char vp_nondet_u8(void) { return X_vp_nondet_u8(); }
 unsigned short vp_nondet_u16(void) { return X_vp_nondet_u16(); }
@@ -32,7 +34,7 @@ unsigned long vp_nondet_u64(void) { return X_vp_nondet_u64(); }
 float vp_nondet_float(void) { return X_vp_nondet_float(); }
 double vp_nondet_double(void) { return X_vp_nondet_double(); }
 void vp_assume(int c) { if (!c) vp_assume_fail(); }
-void vp_assert(int c, const char* m) { if (!c) { printf("VP_CHECK_FAIL prop.%s\n", m); fflush(stdout); _Exit(3); } }
+void vp_assert(int c, const char* m) { if (!c) { printf("VP_CHECK_FAIL prop.%s\n", m); fflush(stdout); vp_cleanup(); _Exit(3); } }
 void* vp_alloc(unsigned long n, int id) { return X_vp_alloc(n, (uint32_t)id); }
 void vp_free(void* p, unsigned long n, int id) { X_vp_free((uint8_t*)p, n, (uint32_t)id); }
 void vp_set_fail_at(int k) { X_vp_set_fail_at((uint32_t)k); }
@@ -49,7 +51,22 @@ int vp_new_live(void) { return 0; }
 void X_vp_fill_n(uint8_t*, uint64_t);
 void vp_fill_n(void* p, unsigned long n) { X_vp_fill_n((uint8_t*)p, n); }
 }
+// ---- native file model: the same bytes in a real temporary file, accessed through real libc streams
+static unsigned char g_file[1 << 16]; static size_t g_file_len; static bool g_written;
+static const char* tmp_name() { if (!g_tmp[0]) { snprintf(g_tmp, sizeof g_tmp, "/tmp/vpfile_%d", (int)getpid()); } return g_tmp; }
+static void commit() { FILE* f = fopen(tmp_name(), "wb"); if (f) { fwrite(g_file, 1, g_file_len, f); fclose(f); } }
+extern "C" {
+unsigned char* vp_file_data(void) { return g_file; }
+unsigned long vp_file_size(void) { if (g_written) { FILE* f = fopen(tmp_name(), "rb"); if (f) { g_file_len = fread(g_file, 1, sizeof g_file, f); fclose(f); } } return g_file_len; }
+void vp_file_init(unsigned long len) { g_file_len = len; for (unsigned long i = 0; i < len; ++i) g_file[i] = X_vp_nondet_u8(); g_written = false; }
+void vp_file_set_len(unsigned long len) { g_file_len = len; }
+FILE* vp_fopen_read(void) { if (!g_written) commit(); return fopen(tmp_name(), "rb"); }
+FILE* vp_fopen_write(void) { g_written = true; return fopen(tmp_name(), "wb"); }
+const char* vp_file_name(void) { if (!g_written) commit(); return tmp_name(); }
+int vp_file_is_open(void) { return 0; }
+}
 int main(int argc, char** argv) {
+    atexit(vp_cleanup);
     if (argc < 3) { fprintf(stderr, "usage: native <entry> <inputs-file>\n"); return 2; }
     FILE* f = fopen(argv[2], "r");
     if (f) { unsigned long long v; while (fscanf(f, "%llu", &v) == 1) g_in.push_back(v); fclose(f); }
